@@ -178,6 +178,13 @@ def c_arrays(ctx, case):
     a = float(m.score_using_array(model_arg(case), arrays))
     b = float(m.score(model_arg(case), stats))
     ctx.close(a, b, "score_using_array == score(acc_stats)", rtol=1e-10, atol=1e-13)
+    if not case["jfa"]:
+        # a single frame handed to ISVMachine.transform as a 1-D vector of n_features values
+        fr = np.array(arrays[0][0], dtype=float)
+        t1 = np.asarray(m.transform(fr), float).reshape(-1)
+        t2 = np.asarray(m.estimate_ux([ubm.acc_stats(fr)]), float).reshape(-1)
+        ctx.close(t1, t2, "transform(frame) for one 1-D frame == estimate_ux([acc_stats(frame)])", rtol=1e-9,
+                  atol=1e-12 * (np.abs(t2).max() + 1e-300))
     # one probe handed over as a bare (n_frames, n_features) array: an array of frames
     bare = float(m.score_using_array(model_arg(case), np.array(arrays[0], dtype=float)))
     b0 = float(m.score(model_arg(case), [stats[0]]))
